@@ -685,6 +685,20 @@ func parseNumberLiteral(literal string) (value interface{}, err error) { //nolin
 
 	parseIntErr := err // Save this first error, just in case
 
+	if errors.Is(err, strconv.ErrRange) && len(literal) > 1 && literal[0] == '0' {
+		// An integer literal in radix 16 or 8 (legacy octal) that does not fit an int64.
+		switch {
+		case literal[1] == 'x' || literal[1] == 'X':
+			if rounded, ok := parseBigIntegerLiteral(literal[2:], 16); ok {
+				return rounded, nil
+			}
+		case strings.Trim(literal, "01234567") == "":
+			if rounded, ok := parseBigIntegerLiteral(literal[1:], 8); ok {
+				return rounded, nil
+			}
+		}
+	}
+
 	value, err = strconv.ParseFloat(literal, 64)
 	if err == nil {
 		return value, nil
